@@ -57,6 +57,25 @@ var c14Scenarios = [][]c14Op{
 	// for the first, K1 and K2 for the second)
 	{{"NM", "the quick brown fix", ""}, {"NM", "lazy dog jumped", ""}},
 	{{"NM", "the quick brown fix", ""}, {"NM", "lazy dog jumped", ""}, {"MM", "x lazy dog jumps y", ""}},
+	// scenario 12 (with the job parameter values=N): two MultipleMatch calls on a text that contains
+	// ALL N extra known values - the library fans out one goroutine per value and more per candidate
+	{{"MM", "@ALL", ""}, {"MM", "@ALL", ""}},
+}
+
+// c14Extra: number of additional known values "va<i> vb<i> vc<i>" (job parameter values=N).
+var c14Extra int
+
+func c14ExtraValue(i int) string {
+	s := fmt.Sprintf("%c%c", 'a'+i%26, 'a'+i/26)
+	return "va" + s + " vb" + s + " vc" + s
+}
+
+func c14AllText() string {
+	var parts []string
+	for i := 0; i < c14Extra; i++ {
+		parts = append(parts, c14ExtraValue(i))
+	}
+	return "x " + strings.Join(parts, " y ") + " z"
 }
 
 // c14Probe observes the final state after all calls returned: which of the values that were
@@ -74,6 +93,9 @@ func c14Probe(cl *Classifier, ops []c14Op) string {
 func c14Build(precomputed bool) *Classifier {
 	cl := New(0.5, FlattenWhitespace)
 	vals := [][2]string{{"K1", "the quick brown fox"}, {"K2", "lazy dog jumps"}}
+	for i := 0; i < c14Extra; i++ {
+		vals = append(vals, [2]string{fmt.Sprintf("E%03d", i), c14ExtraValue(i)})
+	}
 	for _, kv := range vals {
 		if precomputed {
 			cl.AddPrecomputedValue(kv[0], kv[1], searchset.New(kv[1], searchset.DefaultGranularity))
@@ -85,6 +107,9 @@ func c14Build(precomputed bool) *Classifier {
 }
 
 func (o c14Op) run(cl *Classifier) string {
+	if o.arg == "@ALL" {
+		o.arg = c14AllText()
+	}
 	switch o.kind {
 	case "MM":
 		return "MM:" + fmtMatches(cl.MultipleMatch(o.arg))
@@ -134,6 +159,7 @@ func c14Sched(c *vrep.Ctx) {
 		panic("c14_sched needs the v1 instrumentation profile")
 	}
 	sc := c.ParamInt("scenario", 0)
+	c14Extra = c.ParamInt("values", 0)
 	ops := c14Scenarios[sc%len(c14Scenarios)]
 	precomputed := c.Param("precomputed", "no") == "yes"
 	budget := c.ParamInt("budget", c.Pick(3, 5))
@@ -227,7 +253,14 @@ func c14Sched(c *vrep.Ctx) {
 func c14Race(c *vrep.Ctx) {
 	n := c.Pick(32, 64)
 	rounds := c.Pick(20, 60)
-	c.R.Rule = fmt.Sprintf("free-running companion (sampling over schedules): %d real goroutines x %d rounds calling MultipleMatch / NearestMatch / AddValue on one shared classifier (lazy search sets), -race build; results of the read-only calls compared with sequential results where no AddValue interferes; race detector reports are violations", n, rounds)
+	c14Extra = c.ParamInt("values", 0)
+	if c14Extra > 0 {
+		// load variant: many known values that all occur in one text, many callers at once (a worker
+		// that never returns is killed by vcheck and reported as a hang)
+		n, rounds = 96, c.Pick(3, 8)
+	}
+	all := c14AllText()
+	c.R.Rule = fmt.Sprintf("free-running companion (sampling over schedules): %d real goroutines x %d rounds calling MultipleMatch / NearestMatch / AddValue on one shared classifier (lazy search sets; %d extra known values that all occur in one of the texts), -race build; results of the read-only calls compared with sequential results where no AddValue interferes; race detector reports, runtime deadlock reports and hangs are violations", n, rounds, c14Extra)
 	for round := 0; round < rounds; round++ {
 		cl := c14Build(round%2 == 1)
 		var wg sync.WaitGroup
@@ -235,6 +268,10 @@ func c14Race(c *vrep.Ctx) {
 			wg.Add(1)
 			go func(g int) {
 				defer wg.Done()
+				if c14Extra > 0 && g%4 != 3 {
+					cl.MultipleMatch(all)
+					return
+				}
 				switch g % 4 {
 				case 0:
 					cl.MultipleMatch("x the quick brown fox y lazy dog jumps")
